@@ -7,3 +7,5 @@ def run(ctx):
                          "float32, every 10th loaded from a .fil), all bounding-range classes, both orders; distinct = "
                          "distinct (geometry, configuration sequence)")
     c01.run_for(ctx, "C06")
+    from .frame_t import frame_trace_leg
+    frame_trace_leg(ctx, "C06")
